@@ -41,6 +41,13 @@ CHECKS['C12'] = dict(
     design_ref='DESIGN.md section 3 C12',
     note='dict backend with demo data; <= 1 observer; COPY/APPEND by name into a read-write mailbox that the session merely EXAMINEd is treated as an ordinary delivery, not as an effect of the read-only selection',
     technique='explicit-state model checking of the implementation; before/after dump oracle')
+CHECKS['C10'] = dict(
+    engine='E5 two-level explicit-state search over vf/checks/c10.py + vf/refmodel/mailbox.py',
+    category='model_checking',
+    text='Level 1: exhaustive BFS over all sequences (depth 2 quick / 3 thorough) of a 14-event driver alphabet (APPEND with flags/date, multi-APPEND, STORE, EXPUNGE, UID EXPUNGE, COPY, MOVE, FETCH BODY[], CLOSE+SELECT, NOOP and a second session that expunges, appends a \\Deleted message and changes flags, so that the acting session holds stale views), giving the reachable states S. Level 2: every command of a ~440 (quick) / ~970 (thorough) command probe alphabet ({STORE,UID STORE} x modes x .SILENT x 9-10 sequence/UID-set shapes incl. reversed ranges, *, out-of-range, duplicates, out-of-order x 5 flag lists; {FETCH,UID FETCH} x sets x 14 items incl. partials, PEEK and BINARY forms; COPY/MOVE and UID variants x sets x 3 destinations; EXPUNGE, UID EXPUNGE x sets; CLOSE; APPEND variants incl. MULTIAPPEND and the zero-length cancel) is applied once in every state of S on the real server. Each result (which messages are reported with which flags/UIDs/bytes, COPYUID/APPENDUID pairs, tagged condition) and the complete mailbox contents afterwards (UID, flags, INTERNALDATE, bytes of every message in every mailbox) are compared with a plain reference model; the glass-box dump is cross-checked against an independent read-only probe session.',
+    design_ref='DESIGN.md section 3 C10',
+    note='dict backend; acting session plus one concurrent session; tolerances: RFC 2180 behaviour for messages another session expunged, keywords outside PERMANENTFLAGS, \\Deleted messages outside the session view on EXPUNGE, empty-set COPY may be OK or NO; SEARCH is C13',
+    technique='explicit-state model checking of the implementation (two-level: BFS-reached states x full probe alphabet) against a reference model')
 NA = {}
 
 def main():
